@@ -161,6 +161,8 @@ func runBubble(tt *testing.T, f func()) {
 				msg := fmt.Sprint(e)
 				if strings.Contains(msg, "deadlock") && strings.Contains(msg, "bubble") {
 					leakedBubbles++
+					// the bubble's root may be blocked for good inside Sched.Run (its deferred Deactivate never runs)
+					curSched.Store(nil)
 				} else {
 					res = e
 				}
@@ -273,7 +275,7 @@ type Stats struct {
 	Nontrivial  int            `json:"nontrivial"`
 	Steps       int64          `json:"steps"`
 	Switches    int64          `json:"switches"`
-	VirtNs      int64          `json:"virtual_ns"`
+	VirtS       float64        `json:"virtual_s"`
 	Truncated   int            `json:"truncated"`
 	Leaked      int            `json:"leaked_tasks"`
 	Probes      map[string]int `json:"probes"`
@@ -290,7 +292,7 @@ func (st *Stats) Add(r *Run) {
 	}
 	st.Steps += int64(r.Steps)
 	st.Switches += int64(r.Switches)
-	st.VirtNs += r.VirtNs
+	st.VirtS += float64(r.VirtNs) / 1e9
 	if r.Truncated {
 		st.Truncated++
 	}
